@@ -51,7 +51,7 @@ class LiteCutWorld(worlds.World):
     PASSWORD = b"0123456789abcdef"
     concrete_msg = True
 
-    def __init__(self, sx, lite_s, oldlen, writer_authenticates, reader_authenticates):
+    def __init__(self, sx, lite_s, oldlen, writer_authenticates, reader_authenticates, rwflag=0x01):
         from env import tt3lite_sim
         import nfc.tag.tt3_sony
         nfc.tag.tt3_sony.os = FixedOS
@@ -62,7 +62,10 @@ class LiteCutWorld(worlds.World):
         self.nfresh = 0
         self.reader_authenticated = False
         nmaxb = 13
-        attr = [0x10, 4, 1, 0, nmaxb, 0, 0, 0, 0, 0x00, 0x01,
+        # rwflag 00h: the attribute block says read-only (what protect() with
+        # a password leaves behind); an authenticated Lite-S session may write
+        # all the same (memory configuration block)
+        attr = [0x10, 4, 1, 0, nmaxb, 0, 0, 0, 0, 0x00, rwflag,
                 0, (oldlen >> 8) & 255, oldlen & 255]
         cs = sum(attr)
         blocks = {0: attr + [cs >> 8, cs & 255]}
@@ -109,9 +112,11 @@ class LiteCutWorld(worlds.World):
             self.sim.blk[b] != self.first_data[b] for b in self.first_data)
 
 
-def t3lite(sx, lite_s, oldlens, lens, writer_auth, reader_auth, retry=False):
+def t3lite(sx, lite_s, oldlens, lens, writer_auth, reader_auth, retry=False, rwflag=0x01):
     oldlen = sx.pick("oldlen", oldlens)
-    w = LiteCutWorld(sx, bool(lite_s), oldlen, bool(writer_auth), bool(reader_auth))
+    w = LiteCutWorld(sx, bool(lite_s), oldlen, bool(writer_auth), bool(reader_auth), rwflag)
+    if rwflag == 0:
+        sx.reach("lite_attribute_block_says_read_only")
     n = sx.pick("n", [x for x in lens_for(w.cap, lens) if x <= w.cap])
     out = ndefflow.cutflow(sx, w, n, retry)
     if w.nfresh > 1:
@@ -248,6 +253,12 @@ def partitions(tier):
                                      lens=[16, 17, 33, 40] if tier == "quick" else
                                      [0, 1, 16, 17, 32, 33, 40, "cap"],
                                      writer_auth=wa, reader_auth=ra)))
+    # a Lite-S tag whose attribute block says read-only (RWFlag 00h): its
+    # owner authenticates and rewrites it, the reader after the cut does not
+    for ra in (0, 1):
+        parts.append(dict(name="t3lites:rwflag0:writer=auth:reader=%s" % ("auth" if ra else "plain"),
+                          fn="t3lite", params=dict(lite_s=1, oldlens=[17, 33], lens=[16, 33, 40],
+                                                   writer_auth=1, reader_auth=ra, rwflag=0)))
     parts.append(dict(name="retry:t3lites:writer=auth:reader=auth", fn="t3lite",
                       params=dict(lite_s=1, oldlens=[17], lens=[33], writer_auth=1,
                                   reader_auth=1, **R)))
@@ -258,7 +269,7 @@ def partitions(tier):
     return parts
 
 
-MUST_REACH = ["new_message_appends_to_old", "new_message_is_prefix_of_old", "cut", "cut_before_first_write", "write_completed_without_cut",
+MUST_REACH = ["lite_attribute_block_says_read_only", "new_message_appends_to_old", "new_message_is_prefix_of_old", "cut", "cut_before_first_write", "write_completed_without_cut",
               "after_cut_empty", "after_cut_old_or_new", "length_field_straddles_write_unit",
               "after_cut_not_readable", "retry_completed", "retry_cut",
               "lite_authenticated_reader_after_cut_in_data_phase",
